@@ -23,7 +23,7 @@ from . import funcs
 from .core import (Ctx, PathAbort, Realification, SymReal, SymBool, R, B, lift, explore,
                    PI, SQRT2, SQRTPI, SQRT3, LOG2PI, LOG2, LOGPI, CONST_VALUES, exprs)
 from .diff import diff
-from .solve import solve, to_smt2, STATS
+from .solve import solve, prove, to_smt2, STATS
 
 REGISTRY = {}
 
@@ -493,12 +493,13 @@ def run_unit(u, tier="quick", seed=0, query_timeout_ms=None, log=print):
     results, leftover = explore(path_fn, max_paths=opts.get("max_paths", 3000),
                                 branch_timeout_ms=opts.get("branch_timeout_ms", 3000),
                                 max_int_fork=opts.get("max_int_fork", 16),
-                                wall_s=opts.get("explore_wall_s", 600))
+                                wall_s=opts.get("explore_wall_s", 600),
+                                ctx_opts={k: opts[k] for k in ("floor_lemmas", "axioms_in_branch") if k in opts})
     out = {
         "unit": u.name, "property": u.prop, "tier": tier, "params": {k: repr(v) for k, v in u.params.items()},
         "paths": 0, "aborted": {}, "obligations": 0, "unsat": 0, "sat": 0, "unknown": 0, "trivial": 0,
         "violations": [], "inconclusive": [], "samples": [], "covered": {}, "stubs": [], "assumptions": [],
-        "unexplored": len(leftover), "reachable_paths": 0, "distinct": 0,
+        "unexplored": len(leftover), "reachable_paths": 0, "reachable_paths_noaxioms": 0, "distinct": 0,
     }
     if leftover:
         out["inconclusive"].append(f"exploration incomplete: {len(leftover)} decision prefixes left unexplored")
@@ -523,12 +524,20 @@ def run_unit(u, tier="quick", seed=0, query_timeout_ms=None, log=print):
             # obligations recorded before a bound/undefined abort are still discharged below
         out["paths"] += 1
         # reachability twin: the path's hypotheses must be satisfiable
-        st, _ = solve(ctx.hyps(), timeout_ms=qto, want_model=False)
+        st, _ = solve(ctx.hyps(), timeout_ms=min(qto, 1500), want_model=False)
         if st == "unsat":
             out["aborted"]["vacuous"] = out["aborted"].get("vacuous", 0) + 1
             continue
         if st == "sat":
             out["reachable_paths"] += 1
+        else:
+            # satisfiable at least at the level of the abstraction (no transcendental axioms)?
+            st2, _ = solve(ctx.hyps(), timeout_ms=qto, want_model=False, use_axioms=False)
+            if st2 == "unsat":
+                out["aborted"]["vacuous"] = out["aborted"].get("vacuous", 0) + 1
+                continue
+            if st2 == "sat":
+                out["reachable_paths_noaxioms"] += 1
         if pr.error is not None:
             e = pr.error
             tb = "".join(traceback.format_exception(type(e), e, e.__traceback__)[-4:])
@@ -558,7 +567,7 @@ def run_unit(u, tier="quick", seed=0, query_timeout_ms=None, log=print):
                 st, mv = solve(o.hyps, timeout_ms=qto)
             else:
                 t1 = time.time()
-                st, mv = solve(o.hyps + [o.neg], timeout_ms=qto)
+                st, mv, stage = prove(o.hyps, o.neg, timeout_ms=qto)
                 o.time = time.time() - t1
             o.status = st
             out[st] += 1
@@ -578,7 +587,7 @@ def run_unit(u, tier="quick", seed=0, query_timeout_ms=None, log=print):
                 else:
                     out["inconclusive"].append(f"sat on {o.name} not reproduced on replay ({detail})" + (f" [{o.meta}]" if o.meta else ""))
     out["distinct"] = len(distinct)
-    if out["reachable_paths"] == 0 or out["obligations"] == 0:
+    if out["reachable_paths"] + out["reachable_paths_noaxioms"] == 0 or out["obligations"] == 0:
         out["inconclusive"].append("vacuous unit: no reachable path with an obligation")
     out["wall_s"] = round(time.time() - t0, 2)
     out["solver"] = {k: (round(v, 2) if isinstance(v, float) else v) for k, v in STATS.items()}
